@@ -1,11 +1,23 @@
 //! C10 hostile datagrams (solo: per-connection; duo: cross-contamination on the socket).
 use super::solo_drivers::*;
 use crate::common::*;
+use crate::solo::world::Act;
 
 pub fn run(ctx: &Ctx) -> Outcome {
     let mut out = Outcome::default();
     let d = ctx.tier.pick(2, 3);
     for drv in hostile_all(ctx.tier, d) {
+        run_and_report(ctx, &drv, &mut out);
+    }
+    // longer hostile sequences over a thinned alphabet (every 4th packet of the hostile alphabet, all
+    // benign actions): damage that needs several absurd packets in a row to build up
+    let d2 = ctx.tier.pick(5, 7);
+    for mut drv in hostile_all(ctx.tier, d2) {
+        let n = drv.alphabet.len();
+        let keep: Vec<Act> = drv.alphabet.iter().enumerate().filter(|(i, a)| !matches!(a, Act::Deliver(_) | Act::Deliver2(..)) || i % 4 == 0).map(|(_, a)| a.clone()).collect();
+        drv.name = format!("{}-thin", drv.name);
+        drv.alphabet = keep;
+        let _ = n;
         run_and_report(ctx, &drv, &mut out);
     }
     out.merge(crate::props::sockets::hostile_socket(ctx));
